@@ -239,16 +239,23 @@ CHECKS = {
              "outside its extension, at that level, otherwise the address lies inside the root); C20_assign_fire (every overload "
              "class of view assignment, move-assignment, swap and array_ref assignment between views of different extents aborts "
              "before the copy loop), C20_elements_assign_fire, C20_unstopped_assign_fits; C20_ndebug_invariant (results do not "
-             "depend on the assertion switch). Tie: the unchanged C01/C02/C05/C07/C19 harness sources built with assertions, with "
+             "depend on the assertion switch); C20_lifecycle_asserts_silent (every fault-free history of array.hpp entry points in the "
+             "documented domain of the lifecycle model -- constructors, copy/move/view/range/converting assignment, swap, clear, "
+             "reshape, the three reextent overloads, any rank, index bases, empty and zero-inner-extent cases -- makes every "
+             "transcribed assertion true: reshape's num_elements equality, the extension assertions reached through assignment "
+             "from views, the sliced / null-base / size assertions of reextent's block transfer, stride() != 0). "
+             "Tie: the unchanged C01/C02/C05/C07/C19 harness sources and the lifecycle harness h_life.cpp (rank 2 tracked, rank 1 "
+             "trivial, rank 3 tracked; fault-free histories incl. re-based extents, reextent, clear, reshape, assignment from views) built with assertions, with "
              "-DNDEBUG and with -DBOOST_MULTI_ASSERT_DISABLE run the generated valid programs (zero-based and re-based) without "
              "abort and with identical output; death tests in forked children (ASan in the thorough tier) compare abort/no-abort "
              "and the aborting level with the model; fixed probes for the known tensions.",
         design_ref="5/C20", technique="Coq proof (assertion predicates beside every modelled operation; invariants by induction over "
-                                      "operation lists; guarded-execution semantics with a configuration switch) + three-configuration "
+                                      "operation lists; guarded-execution semantics with a configuration switch; lifecycle: assertion predicates over the "
+                                      "array objects of Model/Life.v, induction over histories with the ownership invariant) + three-configuration "
                                       "differential of valid programs + forked death tests compared with the extracted model",
         note="assertion messages are recognised by glibc's assert() format; harness roots have non-null base pointers (null-base "
-             "assertion: probe + known finding); lifecycle histories are not run in three configurations; Coq 8.16.1 kernel, Print "
-             "Assumptions in the evidence; three open known findings (re-based reextent assertion, null-base slice, re-based diagonal)"),
+             "assertion: probe + known finding); faulted lifecycle histories and allocator-trait configurations other than the default are not run in three configurations; Coq 8.16.1 kernel, Print "
+             "Assumptions in the evidence; two open known findings (null-base slice of an empty owning array; re-based diagonal = KF-C19-diagonal-rebased)"),
     "C04": dict(
         text='Theorems C04_history_invariant (any fault-free history of construction from values / arrays / views / ranges / initializer lists / other element types, copy and move construction and assignment over any prior state, swap, reextent, clear, writes, destruction; any rank >= 1, extents, index bases, trait configuration: no illegal lifetime or storage transition, and afterwards every array is backed by its own live block of exactly num_elements constructed cells), C04_storage_disjoint, C04_layout_matches_block, C04_move_ctor_no_copy, C04_swap_no_copy, C04_self_{copy,move}_assign_noop, C04_copy_ctor_extents, C04_view_ctor_extents, C04_move_leaves_empty_valid. The equality of every array with its reference-model VALUE is checked by evaluation of the reference interpreter on every generated history and by the tie (extensions, elements, block classes, allocator ids after every step; disjointness and aliasing monitors), not proved.',
         design_ref="5/C04", technique='Coq proof (ownership invariant of an executable lifecycle machine, Hoare triples with an exceptional postcondition, induction over histories and loops) + extracted-model vs library differential on random histories with an instrumented element type and allocator',
